@@ -386,6 +386,7 @@ example : reply true (mkPending 1000 (some 100) none) 1101 [6, 0] = .ok (false, 
 example : reply true (mkPending 1000 none (some [0xab])) 5000 [6, 0] = .ok (true, [[0x64, 7, 0x62, 1, 0xab, 0x50, 2, 6, 0]]) := by
   rfl
 example : trieKey [⟨.bytearray, cA⟩, ⟨.rwView, cB⟩] = trieKey [⟨.roView, cA⟩, ⟨.bytes, cB⟩] := by decide
+example : pathFromKey [⟨.roMutView, cA⟩] = [⟨.bytes, cA⟩] := by decide
 
 /-! ### what the model takes from the source text
 
@@ -425,8 +426,9 @@ theorem gen_dispatch :
     Gen.C04.v2.noCallback = "node.callback is None" ∧ Gen.C04.v1.noCallback = "node.callback is None" ∧
     Gen.C04.disp.noCallback = "none" := by decide
 
-/-- `NameTrie._path_from_key` (`Fib.pathFromKey`): read-only memoryviews are kept, everything else becomes `bytes` -/
+/-- `NameTrie._path_from_key` (`Fib.pathFromKey`): read-only memoryviews of `bytes` objects are kept, everything else
+    becomes `bytes` -/
 theorem gen_path_from_key :
-    Gen.C04.pathFromKey = "X if X.readonly and isinstance(X, memoryview) else bytes(X)" := by decide
+    Gen.C04.pathFromKey = "X if X.readonly and isinstance(X, memoryview) and isinstance(X.obj, bytes) else bytes(X)" := by decide
 
 end Ndn.C04
